@@ -63,6 +63,12 @@ def argmax : List Int → Int
 def gather (a idx : List Int) : List Int := idx.map fun i => geti a i
 def allInb (a idx : List Int) : Bool := idx.all fun i => inb a i
 
+/-- `np.arange(len(mask))[mask]`: the positions at which a 0/1 mask is set -/
+def whereNZAux : Nat → List Int → List Int
+  | _, [] => []
+  | i, m :: ms => if m != 0 then (i : Int) :: whereNZAux (i + 1) ms else whereNZAux (i + 1) ms
+def whereNZ (mask : List Int) : List Int := whereNZAux 0 mask
+
 /-- truthiness of an integer (`while possible_steps:`) -/
 def truthy (x : Int) : Bool := x != 0
 
